@@ -139,3 +139,33 @@ func init() {
 		Assumptions: []string{"the addressed command is computed by a 5-line walk over the sub-command names preceding the token"},
 	})
 }
+
+func init() {
+	vrule := "product of: the seven built-in types x {option with spec `[-x...]`, argument with spec `[X...]`} x default {zero, non-zero} x environment lists of 0, 1 or 2 variables each {unset, empty, valid, invalid, (multi) list with blanks, list with an invalid element} x command lines giving the value 0, 1 or 2 times in every spelling; all cases distinct by construction; non-trivial = at least two of {command line, environment, default} offer a value"
+	addProp(&propDef{
+		ID: "C06", Check: "values", Level: "exploration",
+		Rule:        vrule + "; judged: the variable read inside the Action equals the 10-line reference (command-line values if any - multi: exactly those, single: the last; else the first non-empty valid variable; else the default)",
+		Assumptions: []string{"validity of the few environment tokens used here is obvious (42 / zz, 2.25 / zz, true / maybe); agreement with strconv on arbitrary tokens is C13"},
+	})
+	addProp(&propDef{
+		ID: "C15", Check: "values", Level: "exploration",
+		Rule:        vrule + "; judged: the SetByUser flag read inside the Action is true iff the command line supplied at least one value",
+		Assumptions: []string{"same product as C06"},
+	})
+}
+
+func init() {
+	addProp(&propDef{
+		ID: "C13", Check: "conv", Level: "exploration",
+		Rule: "every token of the bound (all strings up to the length bound over a 20-character alphabet of digits, signs, exponent / hex / inf / nan / bool letters, underscore and blank, plus a fixed list of edge cases) x the seven built-in types x every delivery (-x=tok, -xtok, -x tok, --xx=tok, --xx tok, positional, positional after --, environment variable, element of an environment list) that the reading rules allow for the token; judged against strconv.ParseInt(s,10,64) / ParseFloat(s,64) / ParseBool called by the oracle: accepted and equal (floats bit-for-bit, NaN = NaN) iff strconv accepts; otherwise a usage error with the Action not run (command line) or the variable ignored (environment); strings byte for byte; non-trivial = strconv rejects the token, or the type is a string type",
+		Assumptions: []string{"the oracle is the Go standard library's strconv, as the property states"},
+	})
+}
+
+func init() {
+	addProp(&propDef{
+		ID: "C16", Check: "implicit", Level: "exploration",
+		Rule: "every declaration set of the bound (0-3 options among flag / valued / multi-valued / env-backed, 0-3 arguments each single or multi-valued, with and without a version flag) built twice - Spec left empty, and the explicit spec `[OPTIONS] A B ..` assembled by the oracle from the documentation's rule - x every argv up to the length bound over the set's own alphabet: acceptance, every bound value, every SetByUser flag and the error text must be identical, and the usage line printed by the implicit variant on rejection must show the explicit spec; non-trivial = sets declaring at least two items",
+		Assumptions: []string{"differential: the explicit-spec variant of the same library is the oracle; what that spec means is C01's business"},
+	})
+}
